@@ -309,5 +309,5 @@ def join_cases(draw):
 
 
 def checks(tier):
-    n = {"quick": 12000, "thorough": 120000}.get(tier, 10)
+    n = {"quick": 12000, "thorough": 40000}.get(tier, 10)
     return [Check("joins", fn_join, strategy=join_cases(), examples=n)]
